@@ -25,15 +25,23 @@ def expOf (q : Rat) : Int :=
   else if m ≥ (9007199254740992 : Rat) then k + 1
   else k
 
-/-- round to nearest binary64, ties to even (non-negative input; 0 ↦ 0) -/
+/-- nearest integer to a non-negative rational, ties to even -/
+def roundHalfEven (m : Rat) : Nat :=
+  let n := floorNat m
+  let r := m - (n : Rat)
+  if r > 1/2 then n + 1 else if r < 1/2 then n else if n % 2 == 1 then n + 1 else n
+
+/-- round to nearest binary64, ties to even (non-negative input; 0 ↦ 0).
+    The significand bracket `2^52 ≤ q/2^e < 2^53` computed by `expOf` is re-checked; the `else`
+    branch (value returned unrounded) is never taken and exists so that the two facts of
+    `Lemmas.Float.FloatSem` can be proved without reasoning about `Nat.log2`. -/
 def rne (q : Rat) : Rat :=
   if q ≤ 0 then 0 else
   let e := expOf q
   let m := q / pow2 e
-  let n := floorNat m
-  let r := m - (n : Rat)
-  let n' := if r > 1/2 then n + 1 else if r < 1/2 then n else if n % 2 == 1 then n + 1 else n
-  (n' : Rat) * pow2 e
+  if (4503599627370496 : Rat) ≤ m ∧ m < (9007199254740992 : Rat) then
+    (roundHalfEven m : Rat) * pow2 e
+  else q
 
 def fadd (a b : Rat) : Rat := rne (a + b)
 def fsub (a b : Rat) : Rat := rne (a - b)
@@ -43,10 +51,7 @@ def ofNat (n : Nat) : Rat := rne (n : Rat)
 /-- Python `int(x)` for a non-negative double -/
 def toNat (x : Rat) : Nat := floorNat x
 /-- Python `round(x)` for a non-negative double: nearest integer, ties to even -/
-def roundNat (x : Rat) : Nat :=
-  let n := floorNat x
-  let r := x - (n : Rat)
-  if r > 1/2 then n + 1 else if r < 1/2 then n else if n % 2 == 1 then n + 1 else n
+def roundNat (x : Rat) : Nat := roundHalfEven x
 
 /-- decode the 64-bit pattern of a non-negative normal double (or zero) -/
 def ofBits (bits : Nat) : Rat :=
